@@ -5,6 +5,7 @@ import (
 	"go/token"
 	"go/types"
 	"runtime/debug"
+	"strings"
 
 	"golang.org/x/tools/go/ssa"
 )
@@ -200,11 +201,24 @@ func (vm *VM) deadlock() {
 	// nothing can run: report what the main goroutine is blocked on
 	desc := "?"
 	pos := "?"
+	label := "deadlock"
 	if vm.main != nil {
 		desc = vm.main.waitDesc
 		pos = vm.posStr(vm.main.waitPos)
+		kind := desc
+		if i := strings.IndexAny(kind, " ("); i > 0 {
+			kind = kind[:i]
+		}
+		label = "deadlock:" + kind + "@" + vm.main.curFn()
+		// who else is stuck inside the library holding things
+		for _, h := range vm.gs {
+			if h != vm.main && h.state == gBlocked && len(h.held) > 0 {
+				label += "<-" + h.curFn()
+				break
+			}
+		}
 	}
-	panic(pathAbort{kind: "DEADLOCK", msg: "no goroutine can run; main blocked on " + desc + " at " + pos + "; " + vm.blockedSummary()})
+	panic(pathAbort{kind: "DEADLOCK", msg: label + "\x00no goroutine can run; main blocked on " + desc + " at " + pos + "; " + vm.blockedSummary()})
 }
 
 func (vm *VM) blockedSummary() string {
